@@ -112,19 +112,52 @@ func roundTripOps(depth, k, nstarts int) {
 	verifCheckRoundTrip(u)
 }
 
+// crossPortBases: bases whose explicit port is another special scheme's default, or that carry
+// state a later protocol/port/host setter interacts with.
+var crossPortBases = []string{"http://h:443/d/p?x#y", "https://h:80/d/", "ws://u@h:21/p", "ftp://h:80/", "a://h:80/p", "http://h:8/d/p"}
+
+// VerifC03RoundTripResolveOps: a URL obtained by resolution (so that fields are copied from a base),
+// then two protocol/host/port setter calls from the value lists, then the round trip (exemptions as above).
+func VerifC03RoundTripResolveOps() {
+	base := crossPortBases[vnd.Pick(len(crossPortBases))]
+	ref := refs[vnd.Pick(len(refs))]
+	u, err := ParseRef(base, ref)
+	mb, mbok := model.Parse(base, nil)
+	if err != nil || !mbok {
+		return
+	}
+	mu, ok := model.Parse(ref, mb)
+	if !ok {
+		return
+	}
+	ops := []int{0, 3, 5}
+	for i := 0; i < 2; i++ {
+		op := ops[vnd.Pick(len(ops))]
+		vals := setterValues[op]
+		val := vals[vnd.Pick(len(vals))]
+		applySetter(u, opSetterNames[op], val)
+		applyModelSetter(mu, op, val)
+	}
+	if !modelRoundTrips(mu) {
+		return
+	}
+	verifCheckRoundTrip(u)
+}
+
 // VerifC03RoundTripOps1: one setter call with a symbolic window.
 func VerifC03RoundTripOps1() { roundTripOps(1, vnd.Param("C03.KOps1", 2, 3), len(startURLs)) }
 
 // VerifC03RoundTripOps2: two setter calls, the first from the value lists, the second symbolic.
-func VerifC03RoundTripOps2() { roundTripOps(2, vnd.Param("C03.KOps2", 1, 2), vnd.Param("C03.Starts2", 7, 17)) }
+func VerifC03RoundTripOps2() { roundTripOps(2, vnd.Param("C03.KOps2", 1, 2), vnd.Param("C03.Starts2", 8, 18)) }
 
 // VerifC03RoundTripOps3: three setter calls (thorough tier).
-func VerifC03RoundTripOps3() { roundTripOps(3, vnd.Param("C03.KOps3", 0, 1), vnd.Param("C03.Starts3", 7, 17)) }
+func VerifC03RoundTripOps3() { roundTripOps(3, vnd.Param("C03.KOps3", 0, 1), vnd.Param("C03.Starts3", 8, 18)) }
 
 func init() {
 	verifHarnesses["VerifC03RoundTripAbs"] = VerifC03RoundTripAbs
 	verifHarnesses["VerifC03RoundTripRel"] = VerifC03RoundTripRel
 	verifHarnesses["VerifC03RoundTripOps1"] = VerifC03RoundTripOps1
+	verifHarnesses["VerifC03RoundTripResolveOps"] = VerifC03RoundTripResolveOps
 	verifHarnesses["VerifC03RoundTripOps2"] = VerifC03RoundTripOps2
 	verifHarnesses["VerifC03RoundTripOps3"] = VerifC03RoundTripOps3
 }
